@@ -301,3 +301,42 @@ contract('C08/DE1._process_inputs', ['C08', 'C07', 'C06'], DEF + 'DifferentialEv
     lambda h: _de_process_inputs(h, DEF + 'DifferentialEvolutionSolver'))
 contract('C08/DE2._process_inputs', ['C08', 'C07', 'C06'], DEF + 'DifferentialEvolutionSolver2._process_inputs', native=False)(
     lambda h: _de_process_inputs(h, DEF + 'DifferentialEvolutionSolver2'))
+
+
+def _sticky_options(h, cls, opts, extra=None):
+    """the algorithm options of Nelder-Mead (radius, adaptive) / Powell (xtol, imax, direc) given as keywords of Solve / Step
+    are STICKY: handed back in the settings of this call AND written into the solver's own attributes -- the only place a
+    checkpoint carries them, so a restored solver continues with the options the run was started with; options not given
+    keep their remembered values"""
+    if not h.is_sym():
+        h.unsupported('symbolic only')
+    combos = [()] + [(o,) for o in opts] + [tuple(opts)]
+    given = h.choice('keywords', combos)
+    before = {o: h.real(o + '_before') for o in opts}
+    new = {o: h.real(o + '_given') for o in opts}
+    fields = dict(before)
+    d_before, d_new = h.fn('DIREC_BEFORE', ret='none'), h.fn('DIREC_GIVEN', ret='none')
+    with_direc = extra == 'direc' and h.choice('direc_given', [False, True])
+    if extra == 'direc':
+        fields['_direc'] = d_before
+    s = h.obj(cls, **fields)
+    vals = {o: new[o] for o in given}
+    if with_direc:
+        vals['direc'] = d_new
+    base = h.dict(callback=None, disp=False)
+    h.set_summaries({(A, 'AbstractSolver._process_inputs'): lambda I, c, a, k: base})
+    r = h.call(h.getattr(s, '_process_inputs'), h.st.alloc('dict', dict(vals)))
+    cell = h.st.heap[r]
+    for o in opts:
+        want = new[o] if o in given else before[o]
+        h.check('C06/%s-as-given-else-kept-in-the-settings-and-in-the-solver-state' % o, 'inset == want and attr == want',
+                inset=cell.get(o), attr=h.field(s, o), want=want)
+    if extra == 'direc':
+        h.check('C06/direction-set-as-given-else-kept', 'ok', ok=(h.field(s, '_direc') is (d_new if with_direc else d_before)))
+
+
+SOF = 'mystic/scipy_optimize.py::'
+contract('C06/NelderMead._process_inputs', ['C06', 'C08', 'C07'], SOF + 'NelderMeadSimplexSolver._process_inputs', native=False)(
+    lambda h: _sticky_options(h, SOF + 'NelderMeadSimplexSolver', ['radius', 'adaptive']))
+contract('C06/Powell._process_inputs', ['C06', 'C08', 'C07'], SOF + 'PowellDirectionalSolver._process_inputs', native=False)(
+    lambda h: _sticky_options(h, SOF + 'PowellDirectionalSolver', ['xtol', 'imax'], extra='direc'))
